@@ -55,6 +55,10 @@ def op_term(op, prev=None):
         return C(k, op[1], op[2])
     if k in ("PopX", "ImulX"):
         return C(k, op[1])
+    if k == "SetSliceN":
+        return C(k, sl_term(op[1]))
+    if k == "ExtendN":
+        return C(k)
     if k == "Pop":
         return C(k, opt(op[1]))
     if k == "Sort":
@@ -259,6 +263,10 @@ def arg_kind(rnd):
 def gen_op(rnd, vk, cur, allow_self=False):
     n = len(cur)
     k = rnd.choice(KINDS)
+    if k in ("SetSlice", "Extend") and rnd.random() < 0.06:
+        # a falsy value that is not iterable where an iterable is required: TypeError, nothing changes
+        bad = rnd.choice(["none", "zero", "false"])
+        return ["SetSliceN", gen_slice(rnd, n), bad] if k == "SetSlice" else ["ExtendN", bad]
     if k in ("Insert", "Pop", "Imul") and rnd.random() < 0.08:
         # the integer argument as an object with __index__ only: the code raises TypeError (finding F26)
         i = rnd.randint(-n - 1, n + 1)
@@ -364,6 +372,7 @@ def corpus():
             ["SetSlice", [3, 1, None], [6]], ["SetSlice", [1, None, 10], [5]], ["DelSlice", [5, 0, -3]],
             ["SetSlice", [0, 0, None], []], ["Sort", False], ["Sort", False], ["Sort", True, 3], ["Sort", False, 2], ["Reverse"],
             ["SetInt", -1, 104], ["SetInt", 7, 200], ["SetInt", 7, 1], ["Pop", -9], ["Pop", None],
+            ["SetSliceN", [1, 3, None], "none"], ["SetSliceN", [None, None, None], "zero"], ["ExtendN", "false"],
             ["Insert", -100, 3], ["Insert", 100, 103], ["InsertX", 0, 3], ["PopX", 0], ["ImulX", 2], ["ImulX", 0], ["PopX", 99], ["Imul", 2], ["Imul", 0], ["Imul", 3], ["Clear"], ["Clear"],
             ["Remove", 3], ["Append", 3], ["Remove", 103], ["Remove", 3],
             ["Extend", [1, 2]], ["Extend", None, "self"], ["Iadd", None, "self"], ["SetSlice", [1, 2, None], None, "self"],
@@ -421,7 +430,9 @@ def grid_ops(b):
                 ["Insert", i, 200], ["Pop", i], ["Imul", i], ["Remove", 10 + i], ["InsertX", i, 99], ["PopX", i],
                 ["ImulX", i]]
     ops += [["Pop", None], ["Append", 5], ["Append", 105], ["Append", 200], ["Extend", [5, 6]], ["Extend", []],
-            ["Extend", [5, 200]], ["Iadd", [5, 106]], ["Iadd", []], ["ImulQ", 1, 2, "float"], ["ImulQ", 5, 2, "float"],
+            ["Extend", [5, 200]], ["Iadd", [5, 106]], ["Iadd", []], ["ExtendN", "none"],
+            ["SetSliceN", [None, None, None], "none"], ["SetSliceN", [1, 3, None], "zero"],
+            ["SetSliceN", [None, None, 2], "false"], ["SetSliceN", [None, None, 0], "none"], ["ImulQ", 1, 2, "float"], ["ImulQ", 5, 2, "float"],
             ["ImulQ", 2, 1, "float"], ["ImulQ", -1, 2, "float"], ["Clear"], ["Reverse"], ["Sort", False, 0],
             ["Sort", True, 0], ["Sort", False, 3], ["Sort", True, 3], ["Sort", True, 2]]
     for s in slices(b):
